@@ -931,8 +931,10 @@ pub fn name_variants(pat: &str) -> Vec<String> {
     let mut near = m.clone();
     near.push('~');
     let mut v = vec![m.clone(), swapped, near];
-    if m.len() > 1 {
-        v.push(m[..m.len() - 1].to_string());
+    if m.chars().count() > 1 {
+        let mut cs: Vec<char> = m.chars().collect();
+        cs.pop();
+        v.push(cs.into_iter().collect());
     }
     v.push(pat.to_string());
     v.dedup();
